@@ -34,7 +34,7 @@ func newRunner(shape pdb.Shape, cfg pdb.Config, dir string, tr *pdb.Trace, sum *
 	}
 	rn.Extra = func(ev tl.M) {
 		rn.ObserveIndex(ev)
-		// TODO-KNOWN-FINDING (C18-KF1, see spec/state/NOTES.md): after a rollback to the state with
+		// Finding C18-F1 (known_findings.json via ctx.known_finding in checks/C18.py): after a rollback to the state with
 		// id 0 the index metadata is deleted (batchIndexer.finish, lastID == 1) and the next
 		// flattened layer fails in indexSingle ("out of order, last: null"), leaving the history
 		// written but the layer not committed. The event is tagged, the trace ends there, and
@@ -45,7 +45,7 @@ func newRunner(shape pdb.Shape, cfg pdb.Config, dir string, tr *pdb.Trace, sum *
 			ev["kf"] = "index-metadata-deleted"
 			sum.Count("KF1:index-metadata-deleted")
 		}
-		// TODO-KNOWN-FINDING (C18-KF2): rollback while the initial indexing run has not completed
+		// Finding C18-F2 (known_findings.json via ctx.known_finding in checks/C18.py): rollback while the initial indexing run has not completed
 		// and the index ends one history below the disk layer fails inside indexIniter.run.
 		if ev["op"] == "Recover" && ev["ok"] == false && ev["can"] == true && ix["on"] == true && ix["inited"] == false {
 			ev["kf"] = "shorten-while-initialising"
